@@ -10,7 +10,8 @@ EXTENDS Integers, Sequences, FiniteSets, TLC, Json
 
 CONSTANTS Roots,      \* names of the node types with a DeepCopy method
           DeepRoots,  \* roots whose chains go to MaxDepth (the others: MaxDepth - 1, the root itself is one level)
-          MaxDepth, NSlices, Slice
+          MaxDepth, NSlices, Slice,
+          OuterNSlices, OuterSlice  \* additional slicing of the chains of length >= 2 for the roots outside DeepRoots
 
 KindRank == [scalar |-> 0, ref |-> 1, constant_ref |-> 2, composable_slot |-> 3, enum |-> 4,
              array |-> 5, map |-> 6, struct |-> 7, disjunction |-> 8, intersection |-> 9]
@@ -22,19 +23,28 @@ RECURSIVE SumRank(_)
 SumRank(s) == IF s = <<>> THEN 0 ELSE KindRank[Head(s)] + SumRank(Tail(s))
 
 \* `any` payloads: a scalar, a slice of scalars, a map of scalars, a slice holding a map holding a slice,
-\* an IR node stored by value (cog keeps ast.DisjunctionType values in hints)
-\* fill: wellformed = exactly the pointer of the type's kind is set; saturated = every exported field of
-\* every struct is non-nil and non-empty; sparse = optional pointers nil, slices and maps nil or empty
+\* an IR node stored by value (cog keeps ast.DisjunctionType values in hints), exotic = typed slices/maps and a pointer
+\* fill, applied to EVERY slot of the value:
+\*   wellformed  exactly the pointer of the type's kind is set; slices non-empty with cap > len; maps non-empty
+\*   saturated   every exported field of every struct is non-nil and non-empty
+\*   sparse      optional pointers nil, slices and maps rotate through nil, empty and short
+\*   nilled      every optional pointer, slice, map and `any` is nil
+\*   emptied     every pointer non-nil (pointing to a value filled the same way), every slice EMPTY WITH SPARE
+\*               CAPACITY (len 0 < cap), every map empty non-nil, every `any` holds an empty list
 Combos == {<<"wellformed", "scalar">>, <<"wellformed", "slice">>, <<"wellformed", "map">>, <<"wellformed", "nested">>,
-           <<"wellformed", "irnode">>, <<"saturated", "nested">>, <<"sparse", "slice">>}
+           <<"wellformed", "irnode">>, <<"wellformed", "exotic">>, <<"saturated", "nested">>, <<"sparse", "slice">>,
+           <<"nilled", "scalar">>, <<"emptied", "slice">>}
 
-Shapes == {[root |-> r, chain |-> c, fill |-> fp[1], payload |-> fp[2]] :
-             r \in Roots, c \in Chains(MaxDepth), fp \in Combos}
-Admitted(s) == /\ (s.root \notin DeepRoots => Len(s.chain) < MaxDepth)
-               /\ SumRank(s.chain) % NSlices = Slice
+\* chains of this slice, by depth bound (computed once, before the product with roots and combos)
+SliceChains(d) == {c \in Chains(d) : SumRank(c) % NSlices = Slice}
+\* Roots outside DeepRoots hold their types behind other nodes and hand them to Type.DeepCopy unseen: every kind
+\* directly below them, and a slice of the longer chains (the type root itself gets every chain)
+ChainsFor(r) == IF r \in DeepRoots THEN SliceChains(MaxDepth)
+                ELSE {c \in SliceChains(MaxDepth - 1) : Len(c) = 1 \/ SumRank(c) % OuterNSlices = OuterSlice}
+Shapes == UNION {{[root |-> r, chain |-> c, fill |-> fp[1], payload |-> fp[2]] : c \in ChainsFor(r), fp \in Combos} : r \in Roots}
 
 VARIABLE shape
-Init == shape \in {s \in Shapes : Admitted(s)}
+Init == shape \in Shapes
 Next == UNCHANGED shape
 Spec == Init /\ [][Next]_shape
 Emit == PrintT(<<"SHAPE", ToJson(shape)>>)
